@@ -148,7 +148,7 @@ def o55(ctx):
         ctx.finding(q, last_store(it, df, "phi") or fn,
                     "the new orientation zxz(phi',theta',psi') must be R*Q (particle rotation times the argument, Q first)",
                     last_store(it, df, "phi") or fn, m, extracted=tm.show(got)[:240], witness=v.witness)
-    expect_cols(ctx, it, q, df, {}, unchanged=others(ctx.prog, ANG), what="apply_rotation")
+    expect_cols(ctx, it, q, df, {}, unchanged=others(ctx.prog, ANG), samplers=sam, what="apply_rotation")
 
 
 def dims_summary(single):
